@@ -875,6 +875,92 @@ theorem exchange_join_reg (w : World) (src dst : Nat) (ns nd : NodeSt) (c1 : Lis
 
 end SafeNet.Replication
 
+/-! ## chunks: the same exchange, immutable data -/
+namespace SafeNet.Replication
+open SafeNet.Validate SafeNet.Gen.Validate SafeNet.Gen.Replication
+open SafeNet.Fetcher (Entry admits hasKT)
+open Abs
+set_option linter.unusedSimpArgs false
+
+/-- chunks: after the replies, `k` holds the chunk if it was fetched at all -/
+theorem fetchAll_chunk (w : World) (dst : Nat) (ns : NodeSt) (k : Nat) (hk : k % 3 = 0)
+    (hs : ns.store.get k = some .chunk) :
+    ∀ (es : List Entry) (nd : NodeSt) (cs : List (List Entry)),
+      (nd.store.get k = none ∨ nd.store.get k = some .chunk) →
+      (fetchAll w dst ns nd es cs).store.get k =
+        if es.any (fun e => e.key == k) then some .chunk else nd.store.get k := by
+  intro es
+  induction es with
+  | nil => intro nd cs _; rfl
+  | cons e rest ih =>
+    intro nd cs hb
+    simp only [fetchAll, List.any_cons]
+    by_cases hek : e.key = k
+    · subst hek
+      simp only [serve, hs, beq_self_eq_true, Bool.true_or, if_true]
+      have h1 : (nodeRsp w dst nd e.key .chunk (cs.headD [])).1.store.get e.key = some .chunk := by
+        rw [nodeRsp_store]
+        rcases hb with hb | hb
+        · rw [replWrites_chunk_absent nd.store e.key hk hb]; exact get_put_same _ _ _
+        · rw [replWrites_chunk_held nd.store e.key _ hk hb]; exact hb
+      rw [ih _ _ (Or.inr h1)]
+      split
+      · rfl
+      · exact h1
+    · have hne : (e.key == k) = false := by simpa using hek
+      simp only [hne, Bool.false_or]
+      split
+      · rename_i c _
+        have h1 : (nodeRsp w dst nd e.key c (cs.headD [])).1.store.get k = nd.store.get k :=
+          nodeRsp_other _ _ _ _ _ _ _ (fun hh => hek hh.symm)
+        rw [ih _ _ (by rw [h1]; exact hb), h1]
+      · exact ih _ _ hb
+
+/-- version of a chunk key: held or not (the content is determined by the key) -/
+def verChunk : Option Content → Ver
+  | some .chunk => some []
+  | _ => none
+
+/-- the key holds nothing or the chunk -/
+def ChunkKey (k : Nat) (nd : NodeSt) : Prop := nd.store.get k = none ∨ nd.store.get k = some .chunk
+
+/-- **A complete exchange is a join, chunks**: afterwards the requester holds the chunk iff one of the two did. -/
+theorem exchange_join_chunk (w : World) (src dst : Nat) (ns nd : NodeSt) (c1 : List Entry) (cs : List (List Entry))
+    (k : Nat) (hk : k % 3 = 0) (hq : StaleQuiet nd.fetcher) (ok : AdvOk w src dst ns nd c1)
+    (hs : ChunkKey k ns) (hd : ChunkKey k nd) :
+    verChunk ((exchangeAll w src dst ns nd c1 cs).store.get k) =
+      join (verChunk (ns.store.get k)) (verChunk (nd.store.get k)) ∧
+    ChunkKey k (exchangeAll w src dst ns nd c1 cs) := by
+  unfold exchangeAll
+  have hst := nodeRep_store' w dst nd src (indexOf ns.store) c1
+  rcases hs with hs | hs
+  · have := fetchAll_untouched w dst ns k _ (nodeRep w dst nd src (indexOf ns.store) c1).1 cs
+      (absent_not_fetched w src dst ns nd c1 hq ok k hs)
+    rw [hst] at this
+    refine ⟨by rw [this, hs]; rfl, ?_⟩
+    unfold ChunkKey
+    rw [this]; exact hd
+  · have hget := fetchAll_chunk w dst ns k hk hs (nodeRep w dst nd src (indexOf ns.store) c1).2.ret
+      (nodeRep w dst nd src (indexOf ns.store) c1).1 cs (by rw [hst]; exact hd)
+    by_cases hany : (nodeRep w dst nd src (indexOf ns.store) c1).2.ret.any (fun e => e.key == k) = true
+    · simp only [hany, if_true] at hget
+      refine ⟨?_, Or.inr hget⟩
+      rw [hget, hs]
+      rcases hd with hd | hd <;> rw [hd] <;> rfl
+    · have hany' : (nodeRep w dst nd src (indexOf ns.store) c1).2.ret.any (fun e => e.key == k) = false := by
+        simpa using hany
+      obtain ⟨c', hc', hty⟩ := not_fetched_same_type w src dst ns nd c1 hq ok k _ hs hany'
+      have hcc : c' = .chunk := by
+        rcases tyOf_inj hty with h | ⟨_, _, _, _, _, h⟩
+        · exact h
+        · cases h
+      subst hcc
+      simp only [hany', if_false, Bool.false_eq_true, hst, hc'] at hget
+      refine ⟨?_, Or.inr hget⟩
+      rw [hget, hs, hc']; rfl
+
+end SafeNet.Replication
+
 /-! ## the fetcher after an exchange, and rounds of exchanges -/
 namespace SafeNet.Replication
 open SafeNet.Validate SafeNet.Gen.Validate SafeNet.Gen.Replication
